@@ -764,8 +764,10 @@ def gen_psd_input(rng, cplx):
     nr = np.random.RandomState(rng.randrange(2 ** 31))
     a = rnd(nr, n * n, cplx).reshape(n, n)
     q, _ = np.linalg.qr(a)
-    kind = rng.choice(["repeated", "repeated", "mixed", "psd", "negdef", "nonherm", "zero", "int"])
-    if kind == "repeated":
+    kind = rng.choice(["repeated", "repeated", "mixed", "psd", "negdef", "nonherm", "zero", "int", "small", "small"])
+    if kind == "small":      # eigenvalues just above / below / at the threshold 0
+        w = np.array([rng.choice([0.05, 1e-3, -1e-3, -0.05, 0.0, 1.0, 0.3]) for _ in range(n)])
+    elif kind == "repeated":
         w = np.array([rng.choice([2.0, -1.0]) for _ in range(n)])
     elif kind == "psd":
         w = np.abs(nr.standard_normal(n)) * rng.choice([1.0, 0.0, 1.0])
@@ -949,6 +951,11 @@ def corpus_cases():
          "input": enc(f4, False), "tag": "corpus:F4"},
         {"kind": "thresh", "fn": "psd_proj", "cplx": False, "ishape": [3, 3], "input": enc(f4, False), "tag": "corpus:F4"},
         {"kind": "thresh", "fn": "psd_proj", "cplx": True, "ishape": [3, 3], "input": enc(f4.astype(complex), True), "tag": "corpus:F4"},
+        # eigenvalues just above / below / at 0
+        {"kind": "thresh", "fn": "psd_proj", "cplx": False, "ishape": [3, 3],
+         "input": enc((q * np.array([0.05, -0.05, 0.0])) @ q.T, False), "tag": "corpus:psd-small"},
+        {"kind": "prox", "cplx": False, "spec": {"cls": "PsdProj", "shape": [2, 2]}, "alpha": 1.0, "ishape": [2, 2],
+         "input": [0.001, 0.0, 0.0, 0.3], "tag": "corpus:psd-small"},
         # exactly on the threshold / on the boundary
         {"kind": "thresh", "fn": "soft_thresh", "cplx": False, "ishape": [5], "lam": 1.0, "input": [1.0, -1.0, 0.0, 2.0, -0.5], "tag": "corpus:threshold"},
         {"kind": "thresh", "fn": "soft_thresh", "cplx": True, "ishape": [2, 2], "lam": 5.0,
@@ -1097,6 +1104,9 @@ def run(ctx):
 
 
 def replay(obj):
+    if "case" not in obj:        # a broken proof / correspondence without a failing input: nothing to re-run
+        print("no input to replay:", json.dumps(obj.get("broken", obj), default=str)[:2000])
+        return 1
     sp = core.import_sigpy()
     c = obj["case"]
     try:
